@@ -120,7 +120,10 @@ where
             p.sks.push((id, sk));
             p.pks.push((pid, pk));
         }
-        while log.events.len() < target && log.events.len() - chunk_start < 400 {
+        // a long list leaves very large symbolic sums in the value table, which TLC re-fingerprints at every
+        // step: the chunk ends right after such an episode
+        let mut big_done = false;
+        while log.events.len() < target && log.events.len() - chunk_start < 400 && !big_done {
             let roll = rng.gen_range(0..100);
             let want_pop = mix == "pop";
             let want_agg = mix == "agg";
@@ -224,8 +227,10 @@ where
                     }
                 }
             } else if roll < 90 || want_agg {
-                // aggregate n honest signatures of one scheme (sometimes mixed), then verify a (perturbed) list
-                let n = rng.gen_range(1..6);
+                // aggregate n honest signatures of one scheme (sometimes mixed), then verify a (perturbed) list;
+                // one list in ten is long (8..64 pairs: more pairing terms than any batching boundary)
+                let n = if rng.gen_range(0..10) == 0 { rng.gen_range(8..65) } else { rng.gen_range(1..6) };
+                big_done = n >= 8;
                 let scheme = ["Basic", "Aug", "Pop"][rng.gen_range(0..3)];
                 let mut sids = vec![];
                 let mut sigs = vec![];
@@ -273,7 +278,8 @@ where
                 }
             } else if roll < 100 || want_multi {
                 // multi-signature over one message
-                let n = rng.gen_range(1..6);
+                let n = if rng.gen_range(0..10) == 0 { rng.gen_range(8..65) } else { rng.gen_range(1..6) };
+                big_done = n >= 8;
                 let scheme = ["Basic", "Pop", "Pop", "Aug"][rng.gen_range(0..4)];
                 let (mr, mb) = rand_msg(&mut rng, &p);
                 let mut sids = vec![];
@@ -623,6 +629,67 @@ where
                     Some(_) => "SomeOther",
                 };
                 log.ev(json!({"ev": "SCDecryptShares", "ct": sccts[c].0, "shares": cids, "res": res}));
+            } else if roll >= 95 {
+                // proofs of knowledge of a signature: interactive and timestamped (virtual clock)
+                let si = rng.gen_range(0..p.sigs.len());
+                let (sid, sig, prov) = p.sigs[si].clone();
+                let (pi, mr, mb) = match prov {
+                    Some((pi, mr, mb)) => (pi, mr, mb),
+                    None => {
+                        let (mr, mb) = rand_msg(&mut rng, &p);
+                        (rng.gen_range(0..nk), mr, mb)
+                    }
+                };
+                atomno += 1;
+                if rng.gen_bool(0.5) {
+                    if let Ok((c, x)) = ProofCommitment::<C>::generate(&mb, sig) {
+                        let cid = log.id("pokc", &Vec::<u8>::from(&c));
+                        log.ev(json!({"ev": "PokCommit", "sig": sid, "msg": mr, "atom": format!("px{}", atomno), "out": cid}));
+                        let (y, yev) = match rng.gen_range(0..4) {
+                            0 => (ProofCommitmentChallenge::<C>(sc::<C>(3)), json!({"ev": "PokChallenge", "kind": "int", "k": 3, "atom": ""})),
+                            1 => (ProofCommitmentChallenge::<C>(sc::<C>(0)), json!({"ev": "PokChallenge", "kind": "zero", "k": 0, "atom": ""})),
+                            2 => (ProofCommitmentChallenge::<C>::from_hash(format!("y{}", atomno % 3)), json!({"ev": "PokChallenge", "kind": "hash", "k": 0, "atom": format!("yh{}", atomno % 3)})),
+                            _ => (ProofCommitmentChallenge::<C>::new(), json!({"ev": "PokChallenge", "kind": "random", "k": 0, "atom": format!("yr{}", atomno)})),
+                        };
+                        let yid = log.id("poky", &y.to_be_bytes());
+                        let mut yev = yev;
+                        yev["out"] = json!(yid);
+                        log.ev(yev);
+                        // finalize with the right signature, sometimes with another one
+                        let (fsid, fsig) = if rng.gen_bool(0.8) { (sid.clone(), sig) } else { let j = rng.gen_range(0..p.sigs.len()); (p.sigs[j].0.clone(), p.sigs[j].1) };
+                        match c.finalize(x, y.clone(), fsig) {
+                            Ok(pf) => {
+                                let pid = log.id("pok", &Vec::<u8>::from(&pf));
+                                log.ev(json!({"ev": "PokFinalize", "commit": cid, "y": yid, "sig": fsid, "res": "Ok", "out": pid}));
+                                let vk = if rng.gen_bool(0.7) { pi } else { rng.gen_range(0..p.pks.len()) };
+                                let (mr2, mb2) = if rng.gen_bool(0.8) { (mr.clone(), mb.clone()) } else { rand_msg(&mut rng, &p) };
+                                let r = pf.verify(p.pks[vk].1, &mb2, y);
+                                log.ev(json!({"ev": "PokVerify", "proof": pid, "pk": p.pks[vk].0, "y": yid, "msg": mr2, "res": res_str(&r)}));
+                            }
+                            Err(_) => log.ev(json!({"ev": "PokFinalize", "commit": cid, "y": yid, "sig": fsid, "res": "Err", "out": ""})),
+                        }
+                    }
+                } else {
+                    #[cfg(feature = "hooks")]
+                    {
+                        let base = 1_000_000u64 + rng.gen_range(0..1000);
+                        blsful::verif_hooks::set_virtual_now_ms(Some(base));
+                        let g = ProofOfKnowledgeTimestamp::<C>::generate(&mb, sig);
+                        if let Ok(pt) = g {
+                            let pid = log.id("pokts", &Vec::<u8>::from(&pt));
+                            log.ev(json!({"ev": "PokTsGen", "sig": sid, "msg": mr, "atom": format!("pt{}", atomno), "now": base, "ts": pt.timestamp, "out": pid}));
+                            for _ in 0..2 {
+                                let tau: i64 = [-1, 0, 5, 1000][rng.gen_range(0..4)];
+                                let delay = [0u64, 4, 5, 6, 999, 1000, 1001, 50_000][rng.gen_range(0..8)];
+                                blsful::verif_hooks::set_virtual_now_ms(Some(base + delay));
+                                let vk = if rng.gen_bool(0.8) { pi } else { rng.gen_range(0..p.pks.len()) };
+                                let r = pt.verify(p.pks[vk].1, &mb, if tau < 0 { None } else { Some(tau as u64) });
+                                log.ev(json!({"ev": "PokTsVerify", "proof": pid, "pk": p.pks[vk].0, "msg": mr, "now": base + delay, "tau": tau, "res": res_str(&r)}));
+                            }
+                        }
+                        blsful::verif_hooks::set_virtual_now_ms(None);
+                    }
+                }
             } else {
                 // ElGamal: encrypt small scalars, add, decrypt, compare with m*Hm
                 let i = rng.gen_range(0..nk);
